@@ -7,7 +7,7 @@ from .. import namecorpus, strcorpus, runner, rustgen
 def generate(tier, rng):
     derives = ['EnumString', 'Display', 'AsRefStr', 'IntoStaticStr', 'EnumMessage']
     enums = namecorpus.build_enums(rng, tier, 'C02', derives, ['parse', 'names', 'roundtrip'], prefixes=[None],
-                                   generics_pool=('', 'ty', '', 'const'), passes=4 if tier == 'quick' else 18)
+                                   generics_pool=('', 'ty', '', 'const', 'ty_nd'), passes=4 if tier == 'quick' else 18)
     # case-insensitivity at both levels (eq_ignore_ascii_case is reflexive: the printed name must still parse)
     for i, e in enumerate(enums):
         e.ci = i % 3 == 1
